@@ -6,7 +6,7 @@
    behaviour of strconv.  The model of /repo instantiates them with
    Token.int32_lit and the harness-supplied float oracle. *)
 From AL Require Import Expr.Parser Expr.Grammar Expr.ParserProofs.
-From AL Require Import Expr.Lexer Expr.LexerSpec Expr.LexerProofs Expr.ParseSrc Expr.ParseSrcProofs.
+From AL Require Import Expr.Lexer Expr.LexerSpec Expr.LexerProofs Expr.ParseSrc Expr.ParseSrcProofs Expr.ParseLazy.
 
 (* parser level, over token lists *)
 Theorem C04_parse_sound : forall int_lit float_ok ts e,
@@ -117,3 +117,12 @@ Theorem C04_src_outcome : forall plus int_lit float_ok src,
   (exists c p, parse_src plus int_lit float_ok src = OParseErr c p /\ within src p).
 Proof. exact src_outcome. Qed.
 Print Assumptions C04_src_outcome.
+
+(* the parser as the code has it — one token of look-ahead, pulling tokens from
+   the lexer on demand, Err() preferring the lexer's error, Parse() counting the
+   remaining tokens — computes exactly parse_src, so the source-level theorems
+   speak about the faithful model *)
+Theorem C04_parse_lazy_eq : forall plus int_lit float_ok src,
+  parse_lazy plus int_lit float_ok src = parse_src plus int_lit float_ok src.
+Proof. exact parse_lazy_eq. Qed.
+Print Assumptions C04_parse_lazy_eq.
